@@ -107,7 +107,7 @@ def c16(prop, tier, verdict):
 def c17(prop, tier, verdict):
     def cl(line, s):
         return 'secure:%s/kind=%s,marker=%s,accept=%s,enforce=%s,keys=%s,codec=%s' % (line.get('ev'), s.get('kind'), s.get('marker'), s.get('accept'), s.get('enforce'), s.get('keys'), s.get('codec'))
-    cov, _ = eng_generic.run(prop, tier, verdict, 'Secure', 'secure', 'PSecure', cl, mc_cfg='Secure_mc.cfg', min_count=1000,
+    cov, _ = eng_generic.run(prop, tier, verdict, 'Secure', 'secure', 'PSecure', cl, mc_cfg='Secure_mc.cfg', min_count=500,
                              nontrivial=lambda s: s['marker'] != 'none' or s['accept'] != 'absent' or s['enforce'])
     return 'model_checking', cov, ['matrix complete: kind x secure marker x accept-secure x enforced secure reply x equal/different keys x key length 16/24/32 x codec json/protobuf x 4 body classes',
                                    'clear-text detection searches the captured bytes for the 31-character random tag (and the head of the padding); the cipher itself is not analysed',
@@ -130,7 +130,7 @@ def c18(prop, tier, verdict):
     rates += [{'rate': {'cap': 10, 'interval_ms': 500, 'bursts': b, 'waits_ms': w}, 'steps': []}
               for b, w in (([1, 24], [560]), ([3, 20, 20], [540, 20]))]
     cov, _ = eng_generic.run(prop, tier, verdict, 'Overload', 'overload', 'POverload', cl, consts={'MaxOps': '7', 'GuardRelease': 'TRUE', 'Limits': '{0, 1, 2}'},
-                             mc_cfg='Overload_mc.cfg', extra_cfg='VIEW view', min_count=200, nontrivial=lambda s: len(s.get('steps', [])) > 2, extra_scenarios=rates)
+                             mc_cfg='Overload_mc.cfg', extra_cfg='VIEW view', min_count=3000, nontrivial=lambda s: len(s.get('steps', [])) > 2, extra_scenarios=rates)
     cov['atomic_model'] = 'spec/OverloadAtomic.tla: 3 concurrent take/release threads at atomic-operation granularity, limit 2: %d distinct states, NeverOver holds' % ra['distinct']
     return 'model_checking', cov, ['connection limit 1..3, histories of at most 7 operations (connect, concurrent burst of 2-3 connects, disconnect, close, raise of the limit), one scenario per transition of the model',
                                    'the interleavings of the limiter\'s atomic operations are model-checked (design level) and exercised by the concurrent bursts, not replayed step by step',
